@@ -44,7 +44,7 @@ func bytesOrStringAsUTF8(v rel.Value) ([]byte, bool) {
 }
 
 func toDecoderTuple(ctx context.Context, e rel.Expr) (rel.Tuple, error) {
-	v, err := e.Eval(ctx, rel.EmptyScope)
+	v, err := e.Eval(ctx, baseScope(ctx))
 	if err != nil {
 		return nil, fmt.Errorf("fail to evalute decoder: %v", err)
 	}
